@@ -5,8 +5,10 @@
    (2) a Givens step with zero angle is the identity (skipping it changes nothing):
        the 2x2 block closed form at w -> the diagonal phase at E = 0. *)
 From Coq Require Import List Bool Arith Lia Reals Lra.
+From Coquelicot Require Import Coquelicot.
 From FQE Require Import Car Fock EvolveR.
 Import ListNotations.
+Local Close Scope R_scope.
 
 (* n_p = a†_p a_p as a partial signed map *)
 Definition num_fn (p : nat) : det -> sdet := scomp (cre p) (ann p).
@@ -41,3 +43,37 @@ Proof.
   intros. unfold ph_re, ph_im. rewrite Rmult_0_l, cos_0, sin_0. split; ring.
 Qed.
 Print Assumptions C17_zero_angle_is_identity.
+
+(* charge-charge terms: the string n_p n_q acts on every determinant as the scalar
+   [p occupied][q occupied]; hence sum_pq v_pq n_p n_q is diagonal with the energy below,
+   and exp(-i t sum v n n) is the plain phase exp(-i t E(d)) on each determinant, in any
+   order of the factors *)
+Local Close Scope R_scope.
+Theorem C17_charge_charge_diagonal : forall p q d, p < length d -> q < length d ->
+  scomp (num_fn p) (num_fn q) d = if andb (nth p d false) (nth q d false) then Some (false, d) else None.
+Proof.
+  intros p q d Hp Hq. unfold scomp.
+  rewrite (C17_number_operator_diagonal q d Hq).
+  destruct (nth q d false) eqn:Eq.
+  - rewrite (C17_number_operator_diagonal p d Hp). destruct (nth p d false); reflexivity.
+  - rewrite andb_false_r. reflexivity.
+Qed.
+Print Assumptions C17_charge_charge_diagonal.
+
+Local Open Scope R_scope.
+Definition occR (d : det) (p : nat) : R := if nth p d false then 1 else 0.
+Definition cc_energy (v : nat -> nat -> R) (n : nat) (d : det) : R :=
+  fold_right (fun p acc => fold_right (fun q acc2 => v p q * occR d p * occR d q + acc2) 0 (seq 0 n) + acc) 0 (seq 0 n).
+
+(* the amplitude exp(-i t E_cc(d)) c0 solves  i c' = E_cc(d) c  with c(0) = c0, for every coupling matrix *)
+Theorem C17_charge_charge_evolution : forall (v : nat -> nat -> R) n d c0r c0i t,
+  is_derive (ph_re (cc_energy v n d) c0r c0i) t (cc_energy v n d * ph_im (cc_energy v n d) c0r c0i t) /\
+  is_derive (ph_im (cc_energy v n d) c0r c0i) t (- cc_energy v n d * ph_re (cc_energy v n d) c0r c0i t) /\
+  ph_re (cc_energy v n d) c0r c0i 0 = c0r /\ ph_im (cc_energy v n d) c0r c0i 0 = c0i.
+Proof.
+  intros v n d c0r c0i t.
+  destruct (diag_schrodinger (cc_energy v n d) c0r c0i t) as [H1 H2].
+  split; [exact H1|]. split; [exact H2|].
+  unfold ph_re, ph_im. rewrite Rmult_0_r, cos_0, sin_0. split; ring.
+Qed.
+Print Assumptions C17_charge_charge_evolution.
